@@ -14,7 +14,6 @@ import (
 	"os"
 	"path/filepath"
 	"runtime/debug"
-	"sort"
 	"strings"
 	"testing"
 	"time"
@@ -24,6 +23,7 @@ import (
 
 type c19Viol struct {
 	Key, Msg string
+	Pos      int // position of the form the violation is attributed to (0: none)
 }
 
 type c19Judged struct {
@@ -102,8 +102,10 @@ func (w *c19World) execCase(c c19Case) (*c19Judged, error) {
 func (w *c19World) judge(j *c19Judged) {
 	c := j.Case
 	rec := w.rec
+	atPos := 0
 	add := func(key, format string, a ...any) {
-		j.Viols = append(j.Viols, c19Viol{key, w.scrub(fmt.Sprintf(format, a...))})
+		j.Viols = append(j.Viols, c19Viol{key, w.scrub(fmt.Sprintf(format, a...)), atPos})
+		atPos = 0
 	}
 	describe := func() string {
 		var sb strings.Builder
@@ -133,6 +135,7 @@ func (w *c19World) judge(j *c19Judged) {
 			if len(mr) == 0 && len(sp.Content) == 0 {
 				kind = "dry-run-rewrites-layout-file"
 			}
+			atPos = sp.Pos
 			add(kind+" binding="+api, "dry run: binding %s (form %q, position %d of the case) changed state\nstate-changing requests: %v\nlayout changes: %v %v\n%s",
 				api, c19FormName(c, sp.Pos), sp.Pos, c19Trunc(mr, 8), c19Trunc(sp.Content, 8), c19Trunc(sp.Touched, 4), describe())
 		}
@@ -207,8 +210,41 @@ func (w *c19World) judge(j *c19Judged) {
 			rec.Count("clause.readonly.output_groups_compared", 1)
 			rec.Count("clause.readonly.output_lines_compared", int64(n))
 			if !same {
+				atPos = pos
 				add("readonly-differs binding="+api, "read-only binding %s returned different values in the dry run and in the normal run on the same state (group %s)\ndry:    %v\nnormal: %v\n%s", api, g, c19Trunc(got, 6), c19Trunc(want, 6), describe())
 				break
+			}
+		}
+		// the requests a read-only binding sends (method, path, status) are the same as well
+		if j.Dry.Cap != nil && j.Ref.Cap != nil && !c.CLI {
+			sig := func(sp c19Span) string {
+				var l []string
+				for _, q := range sp.Reqs {
+					l = append(l, q.String())
+				}
+				return strings.Join(l, " | ")
+			}
+			refSpans := map[string]c19Span{}
+			for _, sp := range j.Ref.Cap.spans {
+				if sp.Pos != 0 && sp.Finished {
+					refSpans[fmt.Sprintf("%s/%d#%d", sp.Script, sp.Pos, sp.Occ)] = sp
+				}
+			}
+			for _, sp := range j.Dry.Cap.spans {
+				api, mut := c19APIAt(c, sp.Pos)
+				if sp.Pos == 0 || mut || !sp.Finished {
+					continue
+				}
+				rs, ok := refSpans[fmt.Sprintf("%s/%d#%d", sp.Script, sp.Pos, sp.Occ)]
+				if !ok {
+					continue
+				}
+				rec.Count("clause.readonly.request_sequences_compared", 1)
+				if sig(sp) != sig(rs) {
+					atPos = sp.Pos
+					add("readonly-differs binding="+api, "read-only binding %s sent different requests in the dry run and in the normal run on the same state\ndry:    %s\nnormal: %s\n%s", api, sig(sp), sig(rs), describe())
+					break
+				}
 			}
 		}
 		// exported tar files (image.exportTar is allowed to write them, and must write the same bytes)
@@ -406,8 +442,8 @@ func c19Enumerate(thorough bool) ([]c19Case, map[string]any) {
 		"wrappers":                c19Wrappers,
 		"pair_location_patterns":  pairLocs,
 		"cases_total":             len(cases),
-		"bindings_total":          len(forms),
-		"bindings_mutating_total": len(muts),
+		"forms_total":             len(forms),
+		"forms_mutating_total":    len(muts),
 	}
 	return cases, info
 }
@@ -424,6 +460,7 @@ func TestVerifC19(t *testing.T) {
 		"evaluations = cases judged. distinct_nontrivial = distinct cases whose NORMAL run sent at least one POST/PUT/PATCH/DELETE or changed a layout directory, i.e. cases in which the dry-run switch had something to suppress")
 	rec.Assume("olareg (in-memory registry used by regclient's own tests) plus a fixed /v2/_catalog answer stand for 'a registry'; only request methods decide whether a request is state-changing")
 	rec.Assume("scripts are run sequentially (defaults.parallel unset or 1 with a single throttle slot), so requests and file changes between two script log() markers belong to the binding between them")
+	rec.Assume("a layout file whose inode, size, mode, mtime and ctime equal the recorded ones, with a ctime at least 50 ms older than the start of the run, has unchanged content (its recorded sha256 is reused); all other files are read and hashed")
 	rec.Assume("layout directories are listed before/after with names, sizes, modes, mtimes and sha256 content hashes; files written by image.exportTar lie outside and are allowed")
 	w, err := c19NewWorld(rec)
 	if err != nil {
@@ -436,6 +473,19 @@ func TestVerifC19(t *testing.T) {
 	confirmed := map[string]bool{}
 	report := func(j *c19Judged) {
 		for _, v := range j.Viols {
+			if !confirmed[v.Key] && v.Pos > 0 && v.Pos <= len(j.Case.Forms) && (len(j.Case.Forms) > 1 || j.Case.Wrapper != c19WStraight || j.Case.CLI) {
+				// look for the smallest witness: the offending form alone in a straight-line script
+				mc := c19Case{Wrapper: c19WStraight, Forms: []string{j.Case.Forms[v.Pos-1]}, Locs: string(j.Case.Locs[v.Pos-1])}
+				if jm, err := w.execCase(mc); err == nil {
+					for _, vm := range jm.Viols {
+						if vm.Key == v.Key {
+							confirmed[v.Key] = true
+							rec.Count("violations.reduced_to_single_form_witness", 1)
+							rec.Violation(vm.Key, vm.Msg, mc)
+						}
+					}
+				}
+			}
 			if !confirmed[v.Key] {
 				j2, err := w.execCase(j.Case)
 				again := false
@@ -485,7 +535,7 @@ func TestVerifC19(t *testing.T) {
 		rec.Info(k, v)
 	}
 	only := os.Getenv("VERIF_C19_ONLY")
-	mutAPIs := map[string]bool{}
+	var nEval, nNormMut, nReadCompared, nFailJudged int
 	for ci, c := range cases {
 		if only != "" {
 			if !strings.Contains(c.String(), only) {
@@ -514,8 +564,16 @@ func TestVerifC19(t *testing.T) {
 		if c.CLI {
 			rec.Count("cases.through_command_line", 1)
 		}
+		nEval++
 		if j.NormMutated {
 			rec.Distinct(c.String())
+			nNormMut++
+		}
+		if len(j.Viols) == 0 && j.Dry.Cap != nil && len(j.Dry.Cap.lines) > 0 {
+			nReadCompared++
+		}
+		if c.Wrapper == c19WRaise || c.Wrapper == c19WAfter {
+			nFailJudged++
 		}
 		report(j)
 		// non-vacuity per form: alone in a straight-line script, a mutating form must change something
@@ -526,7 +584,7 @@ func TestVerifC19(t *testing.T) {
 				if !j.NormMutated {
 					rec.HarnessError("vacuous: mutating form %s at %s changed nothing in the normal run: %v", f.Name, c.Locs, j.Norm.Results)
 				} else {
-					mutAPIs[f.API] = true
+					rec.Count("nonvacuity.form_alone_changes_state_in_normal_run."+f.Name+"@"+c.Locs, 1)
 				}
 			}
 			if !f.Mut && j.NormMutated {
@@ -534,7 +592,7 @@ func TestVerifC19(t *testing.T) {
 				rec.HarnessError("classification: form %s (read-only) changed state in the normal run", f.Name)
 			}
 		}
-		if ci%211 == 0 || (only != "" && os.Getenv("VERIF_C19_PRINT") != "") {
+		if (j.NormMutated && len(c.Forms) >= 2 && ci%53 == 0) || (only != "" && os.Getenv("VERIF_C19_PRINT") != "") {
 			if only != "" {
 				c19Print(w, j)
 			}
@@ -546,16 +604,14 @@ func TestVerifC19(t *testing.T) {
 				"dry_run_requests": len(j.Dry.Reqs), "normal_state_changing_requests": len(j.Norm.mutReqs()), "normal_layout_entries_changed": len(j.Norm.Content)})
 		}
 	}
+	// vacuity: a shard that judged a fair number of cases must have seen normal runs that change
+	// state, dry runs with compared outputs, and failing scripts
+	if only == "" && nEval >= 200 && (nNormMut == 0 || nReadCompared == 0 || nFailJudged == 0) {
+		rec.HarnessError("vacuous shard: %d cases, %d with a state-changing normal run, %d with compared outputs, %d with failing scripts", nEval, nNormMut, nReadCompared, nFailJudged)
+	}
 	rec.Count("fixture.layout_files_hashed", c19HashRead)
 	rec.Count("fixture.layout_files_unchanged_by_inode_size_mtime_ctime", c19HashSkipped)
-	if only == "" && rec.ShardI == 0 {
-		var l []string
-		for a := range mutAPIs {
-			l = append(l, a)
-		}
-		sort.Strings(l)
-		rec.Info("mutating_bindings_confirmed_in_normal_run_shard0", l)
-	}
+	rec.Info("script_prelude", w.scrub(c19Prelude(w.paths)))
 }
 
 func c19Print(w *c19World, j *c19Judged) {
